@@ -42,8 +42,11 @@ class Proc:
 class Interp:
     MAX_SETTLE = 64
 
-    def __init__(self, design, top, track=False, blackbox_ok=False):
+    def __init__(self, design, top, track=False, blackbox_ok=False, big_literal='x'):
         self.design = design
+        # unsized decimal literals >= 2**31: 'x' = indeterminate (counted as an x event), 'extend' = sized to hold the value (what
+        # simulators and synthesis tools do), 'wrap32' = the minimum the standard guarantees (32 bits)
+        self.big_literal = big_literal
         self.track = track
         self.x_events = 0
         self.x_kinds = {}
@@ -325,6 +328,8 @@ class Interp:
         mi = sc.mi
         if isinstance(e, P.Num):
             if e.width is None:
+                if self.big_literal == 'extend' and e.val >= (1 << 31):
+                    return (e.val.bit_length() + 1, e.signed)
                 return (32, e.signed)
             return (e.width, e.signed)
         if isinstance(e, P.Id):
@@ -375,10 +380,14 @@ class Interp:
         raise Indeterminate('expression kind %s' % type(e).__name__)
 
     # ------------------------------------------------------------------ evaluation
-    def eval_assign(self, sc, rhs, lhs_width):
+    def eval_assign(self, sc, rhs, lhs_width, lhs=None):
         w, s = self.typeof(sc, rhs)
         W = max(w, lhs_width)
         v = self.ev(sc, rhs, W, s)
+        if self.track and isinstance(lhs, P.Id):
+            sym = sc.mi.syms.get(lhs.name)
+            if sym is not None and sym.kind == 'integer' and (v & _mask(lhs_width)) != v:
+                self.domain_exits += 1      # a local / state variable is given a value that does not fit its 32 bits
         return v & _mask(lhs_width)
 
     def eval_self(self, sc, e):
@@ -408,11 +417,16 @@ class Interp:
             w = e.width
             if w is None:
                 w = 32
+                v = e.val & _mask(32)
                 if e.val >= (1 << 31):
                     # an unsized decimal is a *signed* value of "at least 32 bits": a literal that does not fit a signed
-                    # 32-bit integer is sized and signed differently by different tools (indeterminate, never judged)
-                    self._note_x('unsized_literal_over_31_bits')
-                v = e.val & _mask(32)
+                    # 32-bit integer is sized and signed differently by different tools (indeterminate on its own; a caller
+                    # may run the two extreme readings side by side and judge what both agree on)
+                    if self.big_literal == 'extend':
+                        w = e.val.bit_length() + 1
+                        v = e.val
+                    elif self.big_literal != 'wrap32':
+                        self._note_x('unsized_literal_over_31_bits')
             else:
                 v = e.val
             return self._ext(v, w, W, S)
@@ -607,6 +621,8 @@ class Interp:
             s = sc.mi.syms.get(lv.name)
             if s is None:
                 raise Indeterminate('undeclared identifier %s' % lv.name)
+            if self.track and s.kind == 'integer' and v >= (1 << 31):
+                self.domain_exits += 1      # a local / state variable is given a value outside the 32-bit signed domain
             v &= _mask(s.width)
             if sc.vals.get(lv.name) != v:
                 sc.vals[lv.name] = v
@@ -688,7 +704,7 @@ class Interp:
                 self.exec_stmt(sc, st.default, nb)
         elif t is P.PAssign:
             lw = self.lv_width(sc, st.lhs)
-            v = self.eval_assign(sc, st.rhs, lw)
+            v = self.eval_assign(sc, st.rhs, lw, st.lhs)
             if st.blocking:
                 self.store(sc, st.lhs, v)
             else:
